@@ -16,6 +16,7 @@ ASSUMPTIONS = ["a cassette whose create_new_recording / abort_recording raise is
 THEOREMS = ["C05_abort_at_most_once", "C05_finalised_exactly_once", "C05_saved_only_if_captured",
             "C05_finalised_exactly_once_under_any_interleaving", "C05_legacy_refuted"]
 
+INTERRUPT_KINDS = ["custom", "keyboard", "sysexit", "genexit"]   # which BaseException an "interrupt" of the program is
 W = dict(rd.DEFAULT_W, fault=0.3, unser=0.05, handler=0.35, discard=0.8, force=0.6, enable=0.35, prep_discards=0.1,
          interrupt=0.15, raise_=0.25, playdata=0.1, recdata=0.4)
 
@@ -93,7 +94,7 @@ def shrink_candidates(case):     # noqa: F811
 def generate(rng, tier):
     cases = rc.race_cases(rng, tier)
     for _ in range(24 if tier == "quick" else 200):
-        cases.append(dict(draws=[], runs=stale_state_history(rng), cassette="memory"))
+        cases.append(dict(interrupt_kind=rng.choice(INTERRUPT_KINDS), draws=[], runs=stale_state_history(rng), cassette="memory"))
     n = 240 if tier == "quick" else 4000
     for i in range(n):
         runs = []
@@ -104,7 +105,7 @@ def generate(rng, tier):
                              save_fails=rng.random() < 0.1))
             runs.append(dict(kind="play", target=nrec, pf={"kind": "op", "op": rd.clean(op)}, enabled=rng.random() < 0.5))
             nrec += 1
-        cases.append(dict(draws=rd.rand_draws(rng, 12), runs=runs, cassette="memory"))
+        cases.append(dict(interrupt_kind=rng.choice(INTERRUPT_KINDS), draws=rd.rand_draws(rng, 12), runs=runs, cassette="memory"))
     return cases
 
 
